@@ -8,7 +8,7 @@ SPEC = dict(
                "undefined-symbol diagnostics work on the populated SymbolDb and are outside the claim.",
     overlays=[(S, "harness/libwild/symbol_db.rs")],
     jobs=1,
-    harnesses=[dict(fn="c02_selector_picks_elf_winner", file=S, timeout=900)],
+    harnesses=[dict(fn="c02_selector_picks_elf_winner", file=S, timeout=900, witness=True)],
     functions_encoded=["symbol_db::SymbolPrioritySelector::{new,consider,best}"],
     bounds="0..=6 candidates, all strength kinds, all 64-bit common sizes, ids base..base+5",
     outside_bounds="SymbolStrength::of (generic over the Symbol trait; classification order weak > common > unique > strong is read, not checked), "
